@@ -16,7 +16,7 @@ theorem c16_merge_new_key (rf sf : Flags) (rcs : List (Key × Node)) (k : Key) (
     (hnew : reqNew [] [] v = none) :
     ∃ r, merge (.comp rf .dict rcs) (.comp sf .dict [(k, v)]) = .ok r ∧
       native r = .dict (nativeList rcs ++ [(k, native v)]) := by
-  have hloop : mergeLoop (mergeF (Node.depth (.comp sf .dict [(k, v)]))) rf .dict rcs [(k, v)] =
+  have hloop : mergeLoop (mergeF (Node.depth (.comp sf .dict [(k, v)]))) rf .dict [] rcs [(k, v)] =
       .ok (rcs ++ [(k, adopt rf .dict v)]) := by
     simp [mergeLoop, mergeStep, getChild, CompKind.isDictFam, hk, hnew, setChild,
       aset_of_lookup_none k _ rcs hk]
